@@ -1096,8 +1096,9 @@ func abs64(x int64) int64 {
 }
 
 // The "first" strategies use a response channel of capacity 1: a third response sent at the very
-// instant of the first blocks its goroutine for ever (that leak belongs to C20, not to C07), and a
-// bubble cannot end with a blocked goroutine.  At most two responders share the earliest instant.
+// instant of the first (or a second one when the select took the timeout at that instant) blocks
+// its goroutine for ever (that leak belongs to C20, not to C07), and a bubble cannot end with a
+// blocked goroutine.  At most two responders share the earliest instant, one if it is the timeout.
 func limitFirstTies(in *Input) {
 	first := int64(-1)
 	for _, p := range in.Provs {
@@ -1106,6 +1107,9 @@ func limitFirstTies(in *Input) {
 		}
 	}
 	k := 0
+	if first == in.Timeout {
+		k = 1
+	}
 	for i := range in.Provs {
 		p := &in.Provs[i]
 		p.Deaf = false
